@@ -79,7 +79,8 @@ func runC09(c *runCfg) error {
 				pm = append(pm, mBind([]byte(fmt.Sprintf("p%d", k)), []byte("s"), pf, nil, rf), mDescribe('P', []byte(fmt.Sprintf("p%d", k))))
 			}
 			for k := range rfs {
-				pm = append(pm, mExecute([]byte(fmt.Sprintf("p%d", k)), 0))
+				// the row-count field of Execute is not a reason to lose rows the handler wrote
+				pm = append(pm, mExecute([]byte(fmt.Sprintf("p%d", k)), []uint32{0, 1, 2, 0x7fffffff, 0xffffffff}[(k+id)%5]))
 			}
 			pm = append(pm, mSync())
 			emitSession(c, lockCase(id, class+"_portals", cfg, stdStartup, pm))
@@ -100,6 +101,29 @@ func runC09(c *runCfg) error {
 			run("type", cols, rows, [][]int{{1}})
 		} else {
 			run("type", cols, rows, [][]int{nil, {0}, {1}})
+		}
+	}
+	// every encoded length around small internal buffers (a field is framed with its own length whatever its size)
+	{
+		cols := []colT{{name: []byte("t"), oid: 25}, {name: []byte("b"), oid: 17}, {name: []byte("n"), oid: 23}}
+		var lens []int
+		for l := 0; l <= 140; l++ {
+			lens = append(lens, l)
+		}
+		lens = append(lens, 250, 251, 252, 253, 254, 255, 256, 257, 258, 259, 260, 508, 509, 510, 511, 512, 513, 514, 515, 516,
+			1019, 1020, 1021, 1022, 1023, 1024, 1025, 1026, 1027, 1028, 2047, 2048, 2049, 4091, 4092, 4093, 4094, 4095, 4096, 4097, 4098, 4099, 4100, 8192, 8193, 65535, 65536, 65537)
+		for i := 0; i < len(lens); i += 12 {
+			var rows [][]valT
+			for _, l := range lens[i:min(i+12, len(lens))] {
+				t := make([]byte, l)
+				b := make([]byte, l)
+				for j := range t {
+					t[j] = byte('a' + (j+l)%26)
+					b[j] = byte(j*31 + l)
+				}
+				rows = append(rows, []valT{{kind: "text", b: t}, {kind: "bytea", b: b}, {kind: "int4", n: int64(l)}})
+			}
+			run("lengths", cols, rows, [][]int{nil, {1}, {0, 1, 0}})
 		}
 	}
 	// every placement of the three NULL kinds in rows of width <= W
